@@ -249,7 +249,20 @@ def native_witness(ctx):
     return core.run_native(open(os.path.join(os.path.dirname(__file__), 'native', 'c26_replay.py')).read(), {'skip_kinds': ['isolation']})
 
 
+def _clock_scan(ctx):
+    """entry age is elapsed time: every clock the cache reads is a monotonic one (a wall clock can be stepped backwards, which
+    would keep entries alive beyond their lifetime; the contract below models the clock as non-decreasing)"""
+    import ast as pyast
+
+    tree = pyast.parse(core.read_repo(PATH))
+    reads = sorted({pyast.unparse(n.func) for n in pyast.walk(tree) if isinstance(n, pyast.Call) and isinstance(n.func, pyast.Attribute) and pyast.unparse(n.func.value) in ('time', 'datetime', 'datetime.datetime')})
+    imported = sorted({a.name for n in pyast.walk(tree) if isinstance(n, pyast.ImportFrom) and n.module in ('time', 'datetime') for a in n.names})
+    ok = bool(reads) and set(reads) <= {'time.monotonic_ns', 'time.monotonic'} and not imported
+    ctx.add(core.decided('C26/clock/entry-age-is-measured-on-a-monotonic-clock', ok, 'clock reads: %r; names imported from time/datetime: %r' % (reads, imported), kind='scan'))
+
+
 def build(ctx):
+    _clock_scan(ctx)  # first: stands even if a changed body leaves the executor's subset
     cx = ClassIndex([PATH])
     inl = Inliner(ctx, cx, calls=helper_models(), types={'k': 'U', 'v': 'U'}, shared=['tlast', 'PUT', 'owner', 'nload', 'me', 'put_fresh'])
     inl.engine_cls = SegEngine
